@@ -29,6 +29,8 @@ namespace EraVerif.Model.Wire
 
 abbrev Bytes := List UInt8
 
+deriving instance DecidableEq for Except
+
 /-- Reasons for `Err(..)` in proto_fmt.rs / quick-protobuf. -/
 inductive Err where
   | eof              -- quick_protobuf::Error::UnexpectedEndOfBuffer
@@ -100,10 +102,15 @@ def readVarint32 (bs : Bytes) : Except Err (Nat × Bytes) :=
   | .ok (v, r) => .ok (v % 2 ^ 32, r)
   | .error e => .error e
 
-/-- `Writer::write_varint`: minimal little-endian base-128. -/
-def writeVarint (n : Nat) : Bytes :=
-  if n < 128 then [UInt8.ofNat n] else UInt8.ofNat (n % 128 + 128) :: writeVarint (n / 128)
-decreasing_by omega
+/-- `Writer::write_varint`: minimal little-endian base-128 (`while v > 0x7F { write((v as u8 & 0x7F) | 0x80); v >>= 7 }
+write(v as u8)`), structurally recursive on a fuel argument so that it also evaluates inside the kernel. -/
+def writeVarintAux : (fuel : Nat) → Nat → Bytes
+  | 0, n => [UInt8.ofNat n]
+  | f + 1, n => if n < 128 then [UInt8.ofNat n] else UInt8.ofNat (n % 128 + 128) :: writeVarintAux f (n / 128)
+
+/-- `write_varint(n)`; the fuel `n` is more than the number of 7-bit groups of `n`
+(`Proofs/Wire.lean: writeVarint_eq` is the loop equation). -/
+def writeVarint (n : Nat) : Bytes := writeVarintAux n n
 
 /-! ## `Reader` of proto_fmt.rs -/
 
